@@ -254,6 +254,12 @@ def gen_case(rng, nested, allow=None, retune=False):
             c["name"] = f"fs{i}"
         lat["es"].insert(rng.randrange(0, len(lat["es"]) + 1), sub)
     uniquify(lat)
+    for l in leaves(lat):
+        # sibling parameters of one kind carry pairwise DISTINCT values (a non-cubic space-charge grid, unequal grid extents)
+        if l["cls"] == "SpaceChargeKick" and rng.random() < 0.75:
+            gx, gy, gt = rng.sample(range(4, 11), 3)
+            ex, ey, et = rng.sample([2.0, 2.5, 3.0, 3.5, 4.0], 3)
+            l["kw"].update(num_grid_points_x=gx, num_grid_points_y=gy, num_grid_points_tau=gt, grid_extend_x=ex, grid_extend_y=ey, grid_extend_tau=et)
     vec = rng.random() < 0.4
     vec_n = rng.choice([2, 3]) if vec else 0
     if vec:
@@ -747,6 +753,133 @@ def json_roundtrip(e):
     return cheetah.Segment.from_lattice_json(str(p)).elements[0]
 
 
+# ---------------------------------------------------------------- every class, pairwise distinct sibling parameters
+# A defining feature that reads its NEIGHBOUR's storage (num_grid_points_tau returning grid_shape[1], gap_exit returning gap, y_max
+# returning x_max ...) changes nothing while the siblings carry the same value.  For every class of the live class table, every
+# constructor parameter gets a value that differs from EVERY other number given to that element (components of tuples and of
+# (2,) tensors included), and the reloaded element is compared with the values the ORIGINAL WAS CONSTRUCTED WITH.
+def _numbers(v):
+    if isinstance(v, torch.Tensor):
+        return [float(x) for x in v.flatten().tolist()]
+    if isinstance(v, (tuple, list)):
+        return [float(x) for x in v]
+    return [float(v)]
+
+
+def distinct_kwargs(cheetah, cls, rng, variant):
+    """constructor keywords (float32) with pairwise distinct numbers; variant % 3 == 2: scalar tensors get a vector dimension (3,)"""
+    used, kw = set(), {}
+    vector_shape = (3,) if variant % 3 == 2 else None
+    for k, p in enumerate(introspect.signature(cls)):
+        if p.name == "device":
+            continue
+        if p.name == "dtype":
+            kw["dtype"] = torch.float32
+            continue
+        v, _ = introspect.value_for(cheetah, cls, p, variant, torch.float32, vector_shape, k)
+        if isinstance(v, (bool, str)) or v is None or p.name in ("elements", "predefined_transfer_map"):
+            kw[p.name] = v
+            continue
+        if isinstance(v, int):
+            d = p.default if isinstance(p.default, int) else 1
+            v = rng.randrange(4, 14) if d > 16 else v + rng.randrange(3)
+            while float(v) in used:
+                v += 1
+        elif isinstance(v, tuple):
+            comps = []
+            for c in v:
+                c = int(c) + rng.randrange(4)
+                while float(c) in used or c in comps:
+                    c += 1
+                comps.append(c)
+            v = tuple(comps)
+        elif isinstance(v, torch.Tensor):
+            v = v * (1.0 + 0.0625 * rng.randrange(8))
+            if v.dim() and v.shape[-1] == 2 and rng.random() < 0.5:
+                v = v.flip(-1)
+            if len(set(_numbers(v))) != v.numel():
+                v = v * (1.0 + 0.125 * torch.arange(v.numel(), dtype=v.dtype).reshape(v.shape))
+            while any(x in used for x in _numbers(v)):
+                v = v * 1.03125
+        used.update(_numbers(v))
+        kw[p.name] = v
+    return kw
+
+
+def tensor_close32(a, b):
+    """same dtype, broadcastable, equal within 4 float32 ulp (a getter that recomputes a value: RBend.rbend_e1 = dipole_e1 - angle/2)"""
+    try:
+        a, b = torch.broadcast_tensors(a, b)
+    except Exception:
+        return False
+    return a.dtype == b.dtype and bool(torch.all((a - b).abs() <= 5e-7 * torch.maximum(a.abs(), b.abs()) + 1e-12))
+
+
+def distinct_beam(rng, n=48):
+    g = torch.Generator().manual_seed(rng.randrange(1 << 30))
+    ps = torch.randn(n, 7, generator=g, dtype=torch.float32) * torch.tensor([2e-4, 3e-5, 3e-4, 2e-5, 1e-4, 1e-3, 0.0])
+    ps[:, 6] = 1.0
+    return {"type": "particle", "particles": [[round(x, 9) for x in row] for row in ps.tolist()], "energy": rng.choice([5e6, 1e8]),
+            "charges": [1e-12 * (1 + i % 3) for i in range(n)], "survival": [1.0 if i % 7 else 0.5 for i in range(n)]}
+
+
+def distinct_observe(cheetah, rows, cname, kw, beam, tag="d"):
+    """save / load ONE element built from kw; compare every constructor parameter of the reloaded element with kw.  -> (problems, track)"""
+    cls = getattr(cheetah, cname)
+    problems, track = [], None
+    try:
+        e = cls(**kw)
+    except Exception as ex:
+        return [f"constructor raised {type(ex).__name__}: {ex}"[:200]], None
+    path = TMP / f"distinct_{tag}.json"
+    try:
+        cheetah.Segment([e], name="distinct_root").to_lattice_json(str(path))
+        doc = json.loads(path.read_text())
+        loaded = cheetah.Segment.from_lattice_json(str(path)).elements[0]
+    except Exception as ex:
+        return [f"save / load raised {type(ex).__name__}: {ex}"[:200]], None
+    saved = doc["elements"].get(e.name, [None, {}])[1] if isinstance(doc.get("elements"), dict) else {}
+    if type(loaded) is not cls:
+        problems.append(f"loaded element is a {type(loaded).__name__}")
+    for p in introspect.settable(rows[cname]):
+        if p not in kw or p == "name" or not hasattr(e, p):
+            continue
+        want = kw[p]
+        for who, obj in (("the ORIGINAL element reports", e), ("the RELOADED element has", loaded)):
+            got = getattr(obj, p, "<missing>")
+            ok, _ = loose_equal(want, got)
+            if not ok and isinstance(want, torch.Tensor) and isinstance(got, torch.Tensor) and obj is e:
+                ok = tensor_close32(want, got)                # a recomputed value: round-off of the getter
+            if not ok and isinstance(want, torch.Tensor) and isinstance(got, torch.Tensor) and obj is loaded \
+                    and not introspect.same_value(want, getattr(e, p)):
+                ok = tensor_close32(want, got)
+            if not ok:
+                problems.append({"parameter": p, "constructed_with": introspect.describe(want), "what": who, "value": introspect.describe(got),
+                                 "written_to_file": saved.get(p, "<not in file>") if isinstance(saved, dict) else None})
+                break
+    try:
+        ref = e.track(realgen.build_beam(beam, dtype=torch.float32))
+    except Exception:
+        track = "original-raises"
+    else:
+        try:
+            out = loaded.track(realgen.build_beam(beam, dtype=torch.float32))
+            track = "equal" if beams_bit_equal(ref, out) else "differs"
+        except Exception as ex:
+            track = f"loaded-raises {type(ex).__name__}"
+        if track != "equal":
+            problems.append(f"the reloaded element tracks a ParticleBeam differently ({track})")
+    return problems, track
+
+
+def distinct_case(cheetah, rows, cname, rng, variant):
+    kw = distinct_kwargs(cheetah, getattr(cheetah, cname), rng, variant)
+    kw["name"] = f"dst_{cname}_{variant}"
+    beam = distinct_beam(rng)
+    problems, track = distinct_observe(cheetah, rows, cname, kw, beam)
+    return {"cls": cname, "kwargs": introspect.describe_kwargs(kw), "beam": beam, "problems": problems, "track": track}
+
+
 def shrink(rows, lat, beam, still_bad):
     """drop children while the same problem persists"""
     changed = True
@@ -866,7 +999,11 @@ def main(tier, replay=None):
                        "name comes back exactly, the file's keys are exactly the names (no duplicate keys), and the TEXT of every key in the file "
                        "is compared with the Coq transcription of json.dumps(key) / of the JSON string parser (vm_compute).  "
                        "Non-trivial = >=2 leaves; distinct by full "
-                       "lattice content.")
+                       "lattice content.  DISTINCT SIBLINGS: SpaceChargeKick leaves of the random lattices carry non-cubic grids and unequal "
+                       "extents; and for EVERY class of the live class table elements are built whose constructor parameters (ints, tuple and "
+                       "(2,)-tensor components included; a third vectorised) are pairwise distinct numbers: every constructor parameter of the "
+                       "reloaded element is compared with the value the original was CONSTRUCTED with (bit-equal where the original echoes it, "
+                       "4 ulp where its getter recomputes it), and a 48-particle ParticleBeam is tracked bit-equally.")
     if replay:
         return do_replay(run, replay)
     proof_ok = run.proof_stage()
@@ -970,6 +1107,21 @@ def main(tier, replay=None):
     # parser (Ops/JsonKeys.v; the round-trip theorem C14_text_roundtrip assumes exactly decode_key (encode_key k) = Some k)
     failing_keys = [key_case[k] for k in common.run_shards(PID, "keys", PREAMBLE, key_terms, "c14_keys_check", shard=60)] if key_terms else []
     run.cov["key_files_checked_against_codec_model"] = len(key_terms)
+    # every class of the live class table, every constructor parameter with a value distinct from all its siblings: the reloaded
+    # element is compared with what the original was CONSTRUCTED with (and tracks a 48-particle beam bit-equally)
+    distinct_bad = []
+    for v in range(60 if thorough else 6):
+        for cname in rows:
+            try:
+                dc = distinct_case(cheetah, rows, cname, run.rng, v)
+            except introspect.Unrecognised as ex:
+                run.notes.append(f"distinct-sibling stage: {cname}: {ex}"[:200])
+                continue
+            run.add_case(["distinct", dc["cls"], dc["kwargs"]], True)
+            run.count("distinct_siblings_" + ("vectorised" if v % 3 == 2 else "scalar"))
+            run.count("distinct_track_" + str(dc["track"]))
+            if dc["problems"]:
+                distinct_bad.append(dc)
     replay_known(run, rows)
     run.cov["tested_only"] = ["JSON text layer (json.dumps / CompactJSONEncoder / json.load) and float <-> text conversion: exercised, not modelled",
                               "bit-equal tracking of original vs loaded lattice (follows from attribute equality in the model; tested on random beams)",
@@ -990,6 +1142,11 @@ def main(tier, replay=None):
         o, _, _ = observe(rows, lat, beam, "shrunk")
         run.violation({"kind": "lattice", "lattice": lat, "beam": beam, "problems": classify(lat, o)[1], "observed": o,
                        "relation": "from_lattice_json(to_lattice_json(s)) == s (structure, names, classes, parameters, tracking); valid JSON; s unchanged"})
+    elif distinct_bad:
+        dc = distinct_bad[0]
+        run.violation({"kind": "class_distinct", **dc,
+                       "relation": "every constructor parameter of the reloaded element equals the value the original was constructed with "
+                                   "(all numbers given to the element pairwise distinct); the reloaded element tracks bit-equally"})
     elif not tab["ok"]:
         found = None
         for name in (tab["rejected"] or []):
@@ -1036,6 +1193,13 @@ def do_replay(run, path):
             ok = False
         print("replay:", "property holds on this input" if ok else "property FAILS on this input")
         return 0 if ok else 1
+    if r.get("kind") == "class_distinct":
+        kw = introspect.kwargs_from_description({k: v for k, v in r["kwargs"].items() if k != "elements"})
+        if r["cls"] == "Segment":
+            kw["elements"] = [cheetah.Drift(length=torch.tensor(0.3, dtype=torch.float32), name="probe_d"), cheetah.Marker(name="probe_m")]
+        problems, track = distinct_observe(cheetah, rows, r["cls"], kw, r["beam"], "replay")
+        print("replay:", "property holds on this input" if not problems else f"property FAILS on this input: {json.dumps(problems, default=str)[:1500]}")
+        return 1 if problems else 0
     if "lattice" not in r:
         print("replay: nothing to replay (no failing input was recorded):", r.get("broken"))
         return 1
